@@ -154,7 +154,80 @@ func arrSort(idx, elem string) string { return "(Array " + idx + " " + elem + ")
 func tSelect(arr, idx Term) Term {
 	// (Array I E) -> E
 	es := elemSortOfArray(arr.Sort)
-	return app(es, "select", arr, idx)
+	// read-over-write simplification when the two indices are syntactically equal, or are the same base
+	// plus different constant offsets (freshly allocated objects allocTop+1, allocTop+2, ...): keeps the
+	// copies of struct values out of the queries
+	cur := arr
+	for depth := 0; depth < 64; depth++ {
+		parts, ok := splitApp(cur.S, "store")
+		if !ok || len(parts) != 3 {
+			break
+		}
+		if parts[1] == idx.S {
+			return T(es, parts[2])
+		}
+		if !distinctOffsets(parts[1], idx.S) {
+			break
+		}
+		cur = T(arr.Sort, parts[0])
+	}
+	return app(es, "select", cur, idx)
+}
+
+// splitApp splits "(op a b c)" into its top-level arguments.
+func splitApp(s, op string) ([]string, bool) {
+	pre := "(" + op + " "
+	if !strings.HasPrefix(s, pre) || !strings.HasSuffix(s, ")") {
+		return nil, false
+	}
+	body := s[len(pre) : len(s)-1]
+	var out []string
+	depth, start := 0, 0
+	for i := 0; i < len(body); i++ {
+		switch body[i] {
+		case '(':
+			depth++
+		case ')':
+			depth--
+			if depth < 0 {
+				return nil, false
+			}
+		case ' ':
+			if depth == 0 {
+				if i > start {
+					out = append(out, body[start:i])
+				}
+				start = i + 1
+			}
+		}
+	}
+	if start < len(body) {
+		out = append(out, body[start:])
+	}
+	return out, depth == 0
+}
+
+// offsetForm writes a term as base + constant ("(+ (+ x 1) 1)" -> x, 2).
+func offsetForm(s string) (string, int64) {
+	var off int64
+	for {
+		parts, ok := splitApp(s, "+")
+		if !ok || len(parts) != 2 {
+			return s, off
+		}
+		var c int64
+		if _, err := fmt.Sscanf(parts[1], "%d", &c); err != nil || fmt.Sprintf("%d", c) != parts[1] {
+			return s, off
+		}
+		off += c
+		s = parts[0]
+	}
+}
+
+func distinctOffsets(a, b string) bool {
+	ba, oa := offsetForm(a)
+	bb, ob := offsetForm(b)
+	return ba == bb && oa != ob
 }
 
 func tStore(arr, idx, v Term) Term { return app(arr.Sort, "store", arr, idx, v) }
